@@ -121,6 +121,46 @@ func checkDigraph(c *eng.Ctx, prop string, caseIdx int, r *Ref, u []Ident, order
 	} else if _, err := g.TopologicalSort(); err == nil {
 		viol("graph-toposort-accepts-cycle", "deferred", "TopologicalSort succeeded on a cyclic graph")
 	}
+	// (iv) grow, sort, grow, sort: the graph of (i) has been sorted (its order may be cached); now
+	// further providers WITHOUT dependencies arrive through the deferred door (then one through
+	// the immediate door), each batch followed by the documented cycle check and another sort:
+	// every node is listed, dependencies first
+	if !cyclic {
+		r4 := r.Clone()
+		added := 0
+		for n := range u {
+			if r4.nodes[n] || added >= 3 {
+				continue
+			}
+			added++
+			tag := 9000 + n
+			var aerr error
+			if added == 3 {
+				aerr = g.AddProvider(NewProvider(u, n, nil, tag))
+			} else {
+				aerr = g.AddProviderDeferred(NewProvider(u, n, nil, tag))
+			}
+			if aerr != nil {
+				viol("graph-deferred-add-error", "after-sort", aerr.Error())
+				break
+			}
+			r4.Add(n, nil, tag)
+			if err := g.DetectCycles(); err != nil {
+				viol("graph-cycle-verdict", "after-sort:leaf-added", fmt.Sprintf("DetectCycles()=%v after a dependency-free provider was added to an acyclic graph", err))
+				break
+			}
+			sorted, err := g.TopologicalSort()
+			if err != nil {
+				viol("graph-toposort-fails-on-dag", "after-sort:leaf-added", err.Error())
+				break
+			}
+			if msg := CheckTopo(sorted, r4, u); msg != "" {
+				viol("graph-toposort-invalid", "after-sort:leaf-added", fmt.Sprintf("after the graph had been sorted once and %s (no dependencies) was added: %s", u[n].Name, msg))
+				break
+			}
+			stats["graph_toposorts_after_growth"]++
+		}
+	}
 	// (iii) one node removed while every add is still deferred (no DetectCycles in between), then
 	// the documented cycle check: verdict and order of what is left
 	if len(order) >= 2 {
